@@ -9,57 +9,51 @@ import (
 
 func k(s string) []byte { b, _ := hex.DecodeString(s); return b }
 
-func TestRepro(t *testing.T) {
-	K := []string{"",
-		"000000040319a342f60f5086997053191b3007b3e43fcc96bdde64513d41036a4dc4f3a077",
-		"00000003033949fe95cbcdfc3b5122858ba902ee69969b3fb8001a40ca98e2a16348b94b9a",
-		"000000020142079202f3226fe9855d623f6770315a688a6f263aab0bff5f58d5d3d2ba89e6",
-		"000000040105079368ca949e8b32ea12b1cf9606562d51b0913c6513faeca9c9a4d39978e8",
-		"00000003001fa5eb51a9b74d8e11353a87faf450b5df084443c847941da90c225c26147fbd",
-		"0000000303ff76158c2fd8735026386754890731c5536ca28d868dc75df67a2bf608fc03fb",
-		"0000000303538ffded5fe544790a6f482785cd7dd9101991d6c60fd75d7adcbf351aeb24de",
-		"0000000303ff76158c2fd8735026386754890731c5536ca28d868dc75df67a2bf608fc0307",
-		"000000030306630ec58e954ab3ffba2c6d8b87d6ea9ce4d9da67ee2cb88f2935f95b21350f",
-		"00000000034dfd4aaf82fa900710fb9e83570daab5b48104f57ac5b5a651b8b722817eb486",
+func run(t *testing.T, cfg merkletrie.MemoryConfig) (failAt string) {
+	mc := &merkletrie.InMemoryCommitter{}
+	mt, err := merkletrie.MakeTrie(mc, cfg)
+	if err != nil {
+		t.Fatal(err)
 	}
-	for iter := 0; iter < 200; iter++ {
-		mc := &merkletrie.InMemoryCommitter{}
-		mt, err := merkletrie.MakeTrie(mc, merkletrie.MemoryConfig{NodesCountPerPage: 32, CachedNodesCount: 4, PageFillFactor: 0, MaxChildrenPagesThreshold: 3})
-		if err != nil {
-			t.Fatal(err)
+	add := func(s string, want bool) bool {
+		ok, err := mt.Add(k(s))
+		if err != nil || ok != want {
+			failAt = "add " + s + ": " + err.Error()
+			return false
 		}
-		add := func(i int, want bool) {
-			ok, err := mt.Add(k(K[i]))
-			if err != nil || ok != want {
-				t.Fatalf("iter %d add K%d: ok=%v err=%v", iter, i, ok, err)
-			}
+		if _, err := mt.RootHash(); err != nil {
+			failAt = "roothash after add " + s + ": " + err.Error()
+			return false
 		}
-		root := func() {
-			if _, err := mt.RootHash(); err != nil {
-				t.Fatalf("iter %d roothash: %v", iter, err)
-			}
+		return true
+	}
+	if !add("0001000101", true) || !add("0001010100", true) || !add("0100010000", true) || !add("0001000001", true) {
+		return
+	}
+	if _, err := mt.Evict(true); err != nil {
+		return "evict: " + err.Error()
+	}
+	if !add("0100000000", true) {
+		return
+	}
+	add("0001000001", false)
+	return
+}
+
+func TestRepro(t *testing.T) {
+	cfgs := []merkletrie.MemoryConfig{
+		{NodesCountPerPage: 32, CachedNodesCount: 4, PageFillFactor: 0.75, MaxChildrenPagesThreshold: 1},
+		{NodesCountPerPage: 32, CachedNodesCount: 0, PageFillFactor: 0.75, MaxChildrenPagesThreshold: 1},
+		{NodesCountPerPage: 32, CachedNodesCount: 4, PageFillFactor: 0.75, MaxChildrenPagesThreshold: 64},
+		{NodesCountPerPage: 32, CachedNodesCount: 4, PageFillFactor: 0.95, MaxChildrenPagesThreshold: 64},
+		{NodesCountPerPage: 116, CachedNodesCount: 4, PageFillFactor: 0.95, MaxChildrenPagesThreshold: 64},
+		{NodesCountPerPage: 116, CachedNodesCount: 9000, PageFillFactor: 0.95, MaxChildrenPagesThreshold: 64},
+	}
+	for _, c := range cfgs {
+		fails := map[string]int{}
+		for i := 0; i < 200; i++ {
+			fails[run(t, c)]++
 		}
-		add(1, true)
-		root()
-		add(2, true)
-		root()
-		add(3, true)
-		if ok, err := mt.Delete(k(K[1])); !ok || err != nil {
-			t.Fatalf("delete: %v %v", ok, err)
-		}
-		add(4, true)
-		add(5, true)
-		add(6, true)
-		root()
-		add(7, true)
-		add(8, true)
-		root()
-		add(9, true)
-		if _, err := mt.Evict(true); err != nil {
-			t.Fatalf("evict: %v", err)
-		}
-		add(10, true)
-		root()
-		add(7, false)
+		t.Logf("%+v -> %v", c, fails)
 	}
 }
